@@ -1,0 +1,67 @@
+//go:build verif
+
+package olric
+
+import (
+	"context"
+	"time"
+
+	"github.com/olric-data/olric/internal/cluster/balancer"
+	"github.com/olric-data/olric/internal/cluster/partitions"
+	"github.com/olric-data/olric/internal/cluster/routingtable"
+	"github.com/olric-data/olric/internal/dmap"
+	"github.com/olric-data/olric/internal/pubsub"
+	"github.com/olric-data/olric/internal/server"
+)
+
+// Verif gives runtime-verification harnesses access to the internals of a member.
+type Verif struct {
+	DMap     *dmap.Service
+	PubSub   *pubsub.Service
+	RT       *routingtable.RoutingTable
+	Balancer *balancer.Balancer
+	Primary  *partitions.Partitions
+	Backup   *partitions.Partitions
+	Server   *server.Server
+	Client   *server.Client
+}
+
+// Verif returns white-box handles for this member.
+func (db *Olric) Verif() *Verif {
+	return &Verif{
+		DMap:     db.dmap,
+		PubSub:   db.pubsub,
+		RT:       db.rt,
+		Balancer: db.balancer,
+		Primary:  db.primary,
+		Backup:   db.backup,
+		Server:   db.server,
+		Client:   db.client,
+	}
+}
+
+// VerifName returns the member's name (host:port).
+func (db *Olric) VerifName() string { return db.name }
+
+// VerifAbruptStop makes the member disappear the way a crashed process does:
+// the RESP listener and connections are closed, memberlist is shut down
+// without a leave broadcast and every service context is cancelled. Nothing
+// is flushed or handed over.
+func (db *Olric) VerifAbruptStop() {
+	select {
+	case <-db.ctx.Done():
+		return
+	default:
+	}
+	db.cancel()
+
+	ctx, cancel := context.WithTimeout(context.Background(), 5*time.Second)
+	defer cancel()
+
+	_ = db.server.Shutdown(ctx)
+	_ = db.rt.Discovery().VerifShutdownNoLeave()
+	_ = db.pubsub.Shutdown(ctx)
+	_ = db.dmap.Shutdown(ctx)
+	_ = db.balancer.Shutdown(ctx)
+	_ = db.rt.Shutdown(ctx)
+}
